@@ -304,11 +304,11 @@ func (e *Enc) typeFactsRec(t types.Type, L []string, st *State, fs *[]string) in
 		}
 		return 1
 	case *types.Pointer:
-		*fs = append(*fs, m.ile(z, L[0]), m.ilt(L[0], st.Alloc), m.ile(z, L[1]), implies(eq(L[0], z), eq(L[1], z)))
+		*fs = append(*fs, m.ile(z, L[0]), m.ilt(L[0], st.Alloc), m.ile(z, L[1]), implies(eq(L[0], z), eq(L[1], z)), e.notGhost(L[0]))
 		return 2
 	case *types.Slice:
 		*fs = append(*fs, m.ile(z, L[0]), m.ilt(L[0], st.Alloc), m.ile(z, L[1]), m.ile(z, L[2]), m.ile(L[2], L[3]),
-			implies(eq(L[0], z), and(eq(L[1], z), eq(L[3], z))))
+			implies(eq(L[0], z), and(eq(L[1], z), eq(L[3], z))), e.notGhost(L[0]))
 		if m == ModeInt {
 			*fs = append(*fs, "(<= "+L[3]+" 4611686018427387904)")
 		}
@@ -317,7 +317,7 @@ func (e *Enc) typeFactsRec(t types.Type, L []string, st *State, fs *[]string) in
 		*fs = append(*fs, m.ile(z, L[0]), m.ile(z, L[1]), m.ile(z, L[2]), implies(eq(L[0], z), and(eq(L[1], z), eq(L[2], z))))
 		return 3
 	case *types.Map, *types.Chan, *types.Signature:
-		*fs = append(*fs, m.ile(z, L[0]), m.ilt(L[0], st.Alloc))
+		*fs = append(*fs, m.ile(z, L[0]), m.ilt(L[0], st.Alloc), e.notGhost(L[0]))
 		return 1
 	case *types.Struct:
 		k := 0
@@ -436,7 +436,57 @@ func (e *Enc) havocSort(st *State, s Sort) {
 	st.H[s] = nh
 }
 
+// notGhost: program pointers never point at the reserved ids of ghost variables.
+func (e *Enc) notGhost(obj string) string {
+	if e.M != ModeInt || len(e.CS.GhostOrd) == 0 {
+		return "true"
+	}
+	return or(e.M.ilt(obj, e.M.ilit(49000)), e.M.ilt(e.M.ilit(100000), obj))
+}
+
+// ghostObj is the reserved object id of a ghost variable (below the allocation watermark, above globals).
+func (e *Enc) ghostObj(name string) string {
+	for i, n := range e.CS.GhostOrd {
+		if n == name {
+			return e.M.ilit(int64(50000 + i))
+		}
+	}
+	return e.M.ilit(49999)
+}
+
+// preserved objects: ghost variables (they change only through contracts that say so) and the package-level
+// variables the contract declares stable (with the objects they point to).
+func (e *Enc) preservedObjs(st *State) []string {
+	var objs []string
+	for _, n := range e.CS.GhostOrd {
+		objs = append(objs, e.ghostObj(n))
+	}
+	if e.Ct != nil && e.Pkg != nil {
+		for _, n := range e.Ct.Stable {
+			if g, ok := e.Pkg.Members[n].(*ssa.Global); ok {
+				p := e.val(g)
+				objs = append(objs, p.L[0])
+				if _, isPtr := derefType(g.Type()).Underlying().(*types.Pointer); isPtr {
+					objs = append(objs, e.sel2(e.heap(st, SI), p.L[0], p.L[1]))
+				}
+			}
+		}
+	}
+	return objs
+}
+
 func (e *Enc) havocAll(st *State) {
+	keep := e.preservedObjs(st)
+	old := st.clone()
+	defer func() {
+		for _, o := range keep {
+			for s, h := range st.H {
+				if oh, ok := old.H[s]; ok && oh != h {
+					e.emitAssert(-1, eq("(select "+h+" "+o+")", "(select "+oh+" "+o+")"))
+				}
+			}
+		}
+	}()
 	var ss []string
 	for s := range e.knownSorts {
 		ss = append(ss, string(s))
